@@ -31,15 +31,39 @@ SLACK = 64 * EPS  # rounding of unit scales, conversion factors and simplificati
 
 def _registry_src():
     return ("reg = UnitRegistry()\n"
-            "for _n, _s, _d in [('la', 1.0, D.length), ('lb', 2.0**-4, D.length), ('lc', 2.0**8, D.length), ('ld', 2.0**10, D.length),\n"
-            "                   ('ta', 4.0, D.time), ('tb', 2.0**-6, D.time), ('tc', 2.0**6, D.time),\n"
-            "                   ('ma', 2.0, D.mass), ('mb', 2.0**-2, D.mass), ('mc', 2.0**8, D.mass)]:\n"
+            "for _n, _s, _d in [('xla', 1.0, D.length), ('xlb', 2.0**-4, D.length), ('xlc', 2.0**8, D.length), ('xld', 2.0**10, D.length),\n"
+            "                   ('xta', 4.0, D.time), ('xtb', 2.0**-6, D.time), ('xtc', 2.0**6, D.time),\n"
+            "                   ('xma', 2.0, D.mass), ('xmb', 2.0**-2, D.mass), ('xmc', 2.0**8, D.mass),\n"
+            "                   ('xfa', 8.0, D.force), ('xea', 2.0**5, D.energy), ('xva', 2.0**-3, D.velocity), ('xqa', 2.0**4, D.rate)]:\n"
             "    reg.add(_n, _s, _d)\n")
 
 
-CUSTOM = [("la", 1.0, "length"), ("lb", 2.0 ** -4, "length"), ("lc", 2.0 ** 8, "length"), ("ld", 2.0 ** 10, "length"),
-          ("ta", 4.0, "time"), ("tb", 2.0 ** -6, "time"), ("tc", 2.0 ** 6, "time"),
-          ("ma", 2.0, "mass"), ("mb", 2.0 ** -2, "mass"), ("mc", 2.0 ** 8, "mass")]
+CUSTOM = [("xla", 1.0, "length"), ("xlb", 2.0 ** -4, "length"), ("xlc", 2.0 ** 8, "length"), ("xld", 2.0 ** 10, "length"),
+          ("xta", 4.0, "time"), ("xtb", 2.0 ** -6, "time"), ("xtc", 2.0 ** 6, "time"),
+          ("xma", 2.0, "mass"), ("xmb", 2.0 ** -2, "mass"), ("xmc", 2.0 ** 8, "mass"),
+          ("xfa", 8.0, "force"), ("xea", 2.0 ** 5, "energy"), ("xva", 2.0 ** -3, "velocity"), ("xqa", 2.0 ** 4, "rate")]
+
+# the same dimension spelled through different decompositions (a named derived unit against a
+# product of others): their quotient does not cancel factor by factor, which is the branch of the
+# dispatcher that multiplies the scale of a dimensionless-ratio result into the numbers
+HETERO = [
+    ["J", "erg", "N*m", "dyn*cm", "kg*m**2/s**2", "W*s", "Pa*m**3", "kJ"],
+    ["N", "dyn", "kg*m/s**2", "g*cm/s**2", "J/m", "lbf", "erg/cm"],
+    ["Pa", "bar", "N/m**2", "dyn/cm**2", "J/m**3", "psi", "lbf/inch**2"],
+    ["W", "J/s", "erg/s", "hp", "N*m/s"],
+    ["m/s", "km/hr", "mile/hr", "mph", "cm/s", "inch/min"],
+    ["Hz", "1/s", "kHz", "1/min", "1/ms"],
+    ["m**2", "ha", "acre", "km**2", "cm*m", "inch*ft"],
+    ["m**3", "L", "gal_US", "cm**3", "m**2*cm", "ha*mm"],
+    ["dimensionless", "percent", "m/km", "s/hr", "N*m/J"],
+    ["rad", "degree", "arcmin", "arcsec", "mrad", "rev"],
+]
+HETERO_POW2 = [
+    ["xea", "xfa*xla", "xma*xla**2/xta**2", "xfa*xlb", "xmb*xlc**2*xtb**(-2)", "xma*xva**2"],
+    ["xfa", "xea/xla", "xma*xla/xta**2", "xmc*xlb*xtc**(-2)", "xea/xld"],
+    ["xva", "xla/xta", "xlb/xtb", "xld*xqa", "xlc/xtc"],
+    ["xqa", "1/xta", "1/xtb", "xva/xla", "xva/xlc"],
+]
 
 PREFIXES = ["k", "m", "c", "M", "d", "h"]
 
@@ -87,11 +111,16 @@ def build_groups(rng, tier):
             names.add("*".join(parts))
         if len(names) >= 2:
             groups.append((f"compound:{i}", sorted(names)))
+    for i, members in enumerate(HETERO):
+        groups.append((f"hetero:{i}", list(members)))
     # custom registry: power-of-two scales
     cgroups = []
     fam = {}
     for n, _s, d in CUSTOM:
-        fam.setdefault(d, []).append(n)
+        if d in ("length", "time", "mass"):
+            fam.setdefault(d, []).append(n)
+    for i, members in enumerate(HETERO_POW2):
+        cgroups.append((f"pow2-hetero:{i}", list(members)))
     for d, ns in fam.items():
         cgroups.append(("pow2:" + d, ns))
     shapes = [[("length", 1), ("time", -1)], [("mass", 1), ("length", 2), ("time", -2)], [("length", 2)], [("mass", 1), ("length", -3)],
@@ -161,7 +190,7 @@ OPERATORS = {"add": "+", "subtract": "-", "multiply": "*", "divide": "/", "floor
              "greater": ">", "greater_equal": ">=", "less": "<", "less_equal": "<=", "equal": "==", "not_equal": "!=",
              "matmul": "@", "power": "**"}
 INPLACE = {"add", "subtract", "multiply", "divide", "floor_divide", "remainder"}
-BINARY = (list(HOM1) + list(CMP) + ["multiply", "divide", "floor_divide", "arctan2", "copysign", "heaviside", "matmul", "dot"])
+BINARY = (list(HOM1) + list(CMP) + ["multiply", "divide", "floor_divide", "arctan2", "copysign", "heaviside", "matmul", "dot", "vecdot"])
 UNARY = list(UN1) + ["sqrt", "cbrt", "square", "reciprocal", "power", "sign", "sin", "cos", "tan"]
 REDUCE = [("add", "reduce"), ("add", "accumulate"), ("maximum", "reduce"), ("minimum", "reduce"), ("multiply", "reduce"),
           ("divide", "reduce"), ("multiply", "outer"), ("add", "outer"), ("divide", "outer"), ("maximum", "accumulate")]
@@ -236,8 +265,10 @@ def try_binary(op, a, b, pow2):
             if a.dim != b.dim or not _away(A, ea + sl * np.abs(A)):
                 return None
             return np.heaviside(A, B), 0.0 * ea, ZERO, False, exact
-        if op in ("matmul", "dot"):
+        if op in ("matmul", "dot", "vecdot"):
             if A.ndim == 0 or B.ndim == 0 or A.shape[-1] != B.shape[0]:
+                return None
+            if op == "vecdot" and not (A.ndim == 1 and B.ndim == 1):
                 return None
             r = A @ B
             aa, bb = np.abs(A), np.abs(B)
@@ -390,10 +421,15 @@ def gen_program(rng, groups, unit_of, pow2, max_depth, max_nodes, force_op=None)
     applicability.  `unit_of(string)` gives the real Unit (for scale and dimension of the leaves)."""
     P = Program(pow2)
     nleaves = rng.randint(2, 4)
-    gidx = [rng.randrange(len(groups)) for _ in range(2)]
+    het = [i for i, g in enumerate(groups) if "hetero" in g[0]]
+
+    def pick():
+        return rng.choice(het) if (het and rng.random() < 0.4) else rng.randrange(len(groups))
+
+    gidx = [pick() for _ in range(2)]
     shapes = [(), (3,), (3,), (2, 3), (3, 3)]
     for i in range(nleaves):
-        g = rng.choice(gidx) if rng.random() < 0.8 else rng.randrange(len(groups))
+        g = rng.choice(gidx) if rng.random() < 0.8 else pick()
         shape = rng.choice(shapes[:3]) if i else (3,)
         vals = leaf_values(rng, shape, pow2)
         u0 = unit_of(groups[g][1][0])
@@ -558,7 +594,7 @@ def run(tier, seed):
         op, form, args, p = desc
         a = f"r{args[0]}"
         b = f"r{args[1]}" if len(args) > 1 else None
-        if op == "dot":
+        if op in ("dot", "vecdot"):
             return f"r{i} = {a} @ {b}"
         if op == "power":
             return f"r{i} = np.power({a}, {float(p)!r})"
@@ -767,7 +803,7 @@ def run(tier, seed):
             if cls == "binary":
                 op = want or rng.choice(BINARY)
                 a = rng.choice(qty)
-                cands = [j for j in qty if (P.nodes[j].dim == P.nodes[a].dim) or op in ("multiply", "divide", "copysign", "matmul", "dot")]
+                cands = [j for j in qty if (P.nodes[j].dim == P.nodes[a].dim) or op in ("multiply", "divide", "copysign", "matmul", "dot", "vecdot")]
                 if not cands:
                     continue
                 b = rng.choice(cands)
@@ -782,7 +818,7 @@ def run(tier, seed):
                 shp = np.asarray(r[0]).shape
                 if op in INPLACE and shp == P.nodes[a].ref.shape:
                     forms.append("iop")
-                if op not in ("dot", "matmul") and op not in CMP:
+                if op not in ("dot", "matmul", "vecdot") and op not in CMP:
                     forms.append("out")
                 if op == "dot":
                     forms = ["call"]
@@ -930,7 +966,7 @@ def run(tier, seed):
             op, form, args, p = nd.desc
             if form == "call" and len(args) == 2 and op in by_name and all(vals[j] is not None for j in args):
                 a, b = vals[args[0]], vals[args[1]]
-                if hasattr(a, "units") and hasattr(b, "units") and op not in ("matmul", "divmod"):
+                if hasattr(a, "units") and hasattr(b, "units") and op not in ("matmul", "divmod", "vecdot"):
                     qa = unyt_quantity(float(np.ravel(a.d)[0]), a.units)
                     qb = unyt_quantity(float(np.ravel(b.d)[0]), b.units)
                     add_binary_case(op, qa, qb, tag="nested")
